@@ -96,6 +96,10 @@ def t_mul(a, b):
             return _ZERO
         if v == 1:
             return a
+    if not an and not bn and ST.sq_of and a.eq(b):
+        sq = ST.sq_of.get(a.get_id())
+        if sq is not None:
+            return sq                       # sqrt(x) * sqrt(x) is x
     if not an and not bn:
         # keep sign()/abs() terms linear: push a multiplication into If-terms (and through sums that contain them)
         if _has_top_ite(a):
@@ -175,6 +179,7 @@ class State:
         self.defs = {}             # name of a purified atom S!k -> the term it stands for
         self.def_of = {}           # term id -> S!k variable
         self.fullpairs = []        # (S!k, fully unfolded definition)
+        self.sq_of = {}            # id of a sqrt variable -> the term it is the square root of
         self.kappa_zero = True     # treat 1e-100 / nextafter regularisers as 0
 
     def fresh(self, prefix):
@@ -512,6 +517,7 @@ class SR(Sym):
         v = z3.Real(name)
         if sg == "p":
             ST.assume(v > 0)
+            return SR(_ONE, {v.get_id(): (v, 1)}, "p")       # a positive variable is an atom of the monomial part
         elif sg == "nn":
             ST.assume(v >= 0)
         elif sg == "n":
@@ -710,13 +716,21 @@ class SR(Sym):
         if w is None:
             v = ST.fresh("sqrt")
             ST.assume(v >= 0)
-            ST.assume(t_mul(v, v) == self.n)
+            if self.sg in ("p", "nn", "z"):
+                ST.assume(t_mul(v, v) == self.n)
+                ST.sq_of[v.get_id()] = self.n
+            else:
+                # sign not known syntactically: the definition only holds where the argument is >= 0 (a side obligation asks for
+                # that); assuming it outright would make the whole path vacuous whenever the argument can be negative
+                ST.assume(z3.Implies(self.n >= 0, t_mul(v, v) == self.n))
             ST.roots[str(v)] = (1, 2, self.n)
             ST.rootcache[key] = (v,)
             w = ST.rootcache[key]
         sg = "p" if self.sg == "p" else "nn"
         if sg == "p":
             ST.assume(w[0] > 0)
+            # a strictly positive root is an atom of the monomial part (keeps the polynomial part free of it)
+            return SR(_ONE, _fmul(half, {w[0].get_id(): (w[0], 1)}), "p")
         return SR(w[0], half, sg)
 
     def __abs__(self):
@@ -1200,3 +1214,35 @@ def has_sym(arr):
     if isinstance(arr, np.ndarray) and arr.dtype == object:
         return any(isinstance(x, Sym) for x in arr.flat)
     return False
+
+
+def sr_max(xs):
+    """max of reals as an If-term (no path fork); the common positive monomial is factored out of the comparison"""
+    xs = [x if isinstance(x, SR) else SR.lift(x) for x in xs]
+    out = xs[0]
+    for x in xs[1:]:
+        if out.is_const() and x.is_const():
+            out = out if out.constval() >= x.constval() else x
+            continue
+        com = _common(out.f, x.f)
+        a = _poly(out.n, _fmul(out.f, com, -1))
+        b = _poly(x.n, _fmul(x.f, com, -1))
+        sg = "nn" if (out.sg in ("p", "nn", "z") or x.sg in ("p", "nn", "z")) else None
+        if out.sg == "p" or x.sg == "p":
+            sg = "p"
+        out = SR(z3.If(a >= b, a, b), com, sg)
+    return out
+
+
+class SymArray(np.ndarray):
+    """ndarray whose max()/min() over symbolic reals build If-terms instead of forcing comparisons to concrete bools"""
+
+    def max(self, axis=None, out=None, **kw):
+        if axis is None and self.dtype == object and any(isinstance(v, Sym) for v in self.flat):
+            return sr_max(list(self.flat))
+        return np.ndarray.max(self.view(np.ndarray), axis=axis, out=out, **kw)
+
+    def min(self, axis=None, out=None, **kw):
+        if axis is None and self.dtype == object and any(isinstance(v, Sym) for v in self.flat):
+            return -sr_max([-v for v in self.flat])
+        return np.ndarray.min(self.view(np.ndarray), axis=axis, out=out, **kw)
